@@ -731,7 +731,7 @@ qf = z3.Int("qf")
 B_ = z3.BoolSort()
 
 
-class FnPtr(Obj):
+class FixedFnPtr(Obj):
     cls = "function pointer"
 
     def __init__(self, fn):
@@ -775,13 +775,13 @@ class FixedCopyValueFrom(Kernel):
         ctx.store[(sch.oid, "value_schema")] = Ptr(vs)
         ctx.store[(state.oid, "schema")] = Ptr(sch)
         state.m_element_count = lambda I_2, a, n: k.n
-        state.m_element_type = lambda I_2, a, n: ChildRef(I_2.ctx.rv(a[0]))
+        state.m_element_type = lambda I_2, a, n: FixedChildRef(I_2.ctx.rv(a[0]))
         self.state = state
         source = Obj("ValueView", "source")
         source.m_has_value = lambda I_2, a, n: k.source_has
-        source.m_schema = lambda I_2, a, n: SchemaTok(k)
+        source.m_schema = lambda I_2, a, n: FixedSchemaTok(k)
         vals = Obj("IndexedView", "source_values")
-        vals.m_size = lambda I_2, a, n: SizeTok(k)
+        vals.m_size = lambda I_2, a, n: FixedSizeTok(k)
 
         def at(I_2, a, n):
             i = I_2.ctx.rv(a[0])
@@ -821,8 +821,8 @@ class FixedCopyValueFrom(Kernel):
                         return k.fresh_mark[i]
                     t.m_record_modified = rec
                     return Ptr(t, k.track_null[i])
-                I.ctx.store[(o.oid, "copy_value_from_impl")] = FnPtr(copy)
-                I.ctx.store[(o.oid, "mutable_tracking_impl")] = FnPtr(tracking)
+                I.ctx.store[(o.oid, "copy_value_from_impl")] = FixedFnPtr(copy)
+                I.ctx.store[(o.oid, "mutable_tracking_impl")] = FixedFnPtr(tracking)
                 return o
             return ops
         if name == "child_data":
@@ -884,7 +884,7 @@ class FixedCopyValueFrom(Kernel):
                      z3.BoolVal(exc.cls in ("std::logic_error", "std::invalid_argument")), kind="post-exceptional")
 
 
-class ChildRef(Obj):
+class FixedChildRef(Obj):
     cls = "TSDataTypeRef(child)"
 
     def __init__(self, index):
@@ -892,7 +892,7 @@ class ChildRef(Obj):
         self.index = index
 
 
-class SchemaTok(Obj):
+class FixedSchemaTok(Obj):
     cls = "schema*"
     custom_binop = True
 
@@ -907,7 +907,7 @@ class SchemaTok(Obj):
     rbinop = binop
 
 
-class SizeTok(Obj):
+class FixedSizeTok(Obj):
     cls = "size"
     custom_binop = True
 
